@@ -175,6 +175,17 @@ func runProcR(c procCase, o oracles, reqCap int) (*runner, *vh.Violation, vh.Out
 		}
 	}
 	out.NonTrivial = r.nPub > 0 || r.nStored > 0
+	switch n := len(c.Ops); {
+	case n >= 20:
+		r.label("ops>=20")
+	case n >= 8:
+		r.label("ops 8..19")
+	default:
+		r.label("ops<8")
+	}
+	if r.nPub > 0 {
+		r.label("published-locally")
+	}
 	return finish(nil)
 }
 
